@@ -192,7 +192,8 @@ def shards(tier, seed):
     n = 48 if tier == 'quick' else 160
     return [('odd-all', tier, k, 28) for k in range(28)] + [('main', tier, i, n) for i in range(n)] + \
         [('odd', tier, 0, 1), ('nontag', tier, 0, 1), ('huge', tier, 0, 1), ('degenerate', tier, 0, 1), ('codepoints', tier, 0, 1)] + \
-        [('parsed', tier, d, 1) for d in ('forms', 'links', 'iframe', 'foreign', 'struct', 'iframe-meta')]
+        [('parsed', tier, d, 1) for d in ('forms', 'links', 'iframe', 'foreign', 'struct', 'iframe-meta')] + \
+        [('pairs', tier, k, 16) for k in range(16)]
 
 
 HUNG = set()
@@ -618,6 +619,57 @@ def run_parsed(sv, tier, res, docname):
     res.count('parsed_documents', len(_docs.KINDS))
 
 
+def pair_texts(sv):
+    """Every unordered pair of pseudo-class atoms written as ONE compound (both orders when one of them reads text or keeps per-call
+    bookkeeping): code that prepares something once per compound for 'the' pseudo-class of a kind meets a second one of a sibling kind."""
+    _, base = selector_texts(sv, 'quick')
+    atoms = [b for b in base if b.startswith(':')]
+    ordered = [a for a in atoms if 'contains' in a or a.startswith((':default', ':indeterminate', ':dir', ':lang', ':in-range', ':out-of-range', ':root', ':has', ':empty'))]
+    out = []
+    for i, a in enumerate(atoms):
+        for b in atoms[i:]:
+            out.append(a + b)
+            if a != b and (a in ordered or b in ordered):
+                out.append(b + a)
+    return out
+
+
+def run_pairs(sv, tier, res, k, n):
+    from . import _docs
+    texts = pair_texts(sv)
+    res.count('pair_compounds', len(texts) if k == 0 else 0)
+    plan = [('forms', 'html.parser'), ('struct', 'html5lib')] if tier == 'quick' else \
+        [(d, kind) for d in ('forms', 'links', 'iframe', 'foreign', 'struct', 'iframe-meta') for kind in _docs.KINDS]
+    for docname, kind in plan:
+        soup = _docs.build(docname, kind)
+        els = T.elements(soup)
+        for ti, text in enumerate(texts):
+            if ti % n != k:
+                continue
+            if ti % 64 == k:
+                sv.purge()
+            try:
+                c = sv.compile(text)
+            except Exception as e:
+                res.fail({'layer': 'compile', 'selector': text}, {'kind': 'compile', 'exc': type(e).__name__}, f'{text!r} does not compile: {e!r}')
+                continue
+            nbad = 0
+            for j, target in enumerate([soup] + els):
+                bad = call_all(sv, c, text, target, els, res, full=j == 0)
+                if bad:
+                    nbad += 1
+                    res.outcome('raised')
+                    if nbad == 1:
+                        res.fail({'layer': 'parsed', 'doc': docname, 'kind': kind, 'selector': text, 'target': j - 1, 'entry': bad[0][0]},
+                                 {'kind': 'raise', 'exc': bad[0][1].split(':')[0], 'values': 'parsed:' + kind, 'entry': 'pair-compound'},
+                                 f'[{docname} via {kind}] {bad[0][0]}({text!r}) on {"the document" if j == 0 else str(target)[:80]!r}: {bad[0][1]}')
+                    else:
+                        res.failure_count += 1
+                else:
+                    res.outcome('returned')
+            res.nontrivial += 1 if not nbad else 0
+
+
 def run_shard(desc):
     from .. import common
     sv = common.bind()
@@ -625,6 +677,8 @@ def run_shard(desc):
     res = shard.Result()
     if desc[0] == 'parsed':
         run_parsed(sv, desc[1], res, desc[2])
+    elif desc[0] == 'pairs':
+        run_pairs(sv, desc[1], res, desc[2], desc[3])
     elif desc[0] == 'odd-all':
         run_odd_all_selectors(sv, desc[1], res, desc[2])
     elif desc[0] == 'degenerate':
@@ -711,7 +765,7 @@ def check(tier, seed):
                  'every call returned a value of the documented type; groups are distinct by construction'),
         'exhaustive': not info['cap_hit'],
         'contexts': list(CONTEXTS), 'focus_elements': res.counters.get('focus_elements'), 'selectors': res.counters.get('selectors'),
-        'odd_values': [repr(x) for x in ODD],
+        'odd_values': [repr(x) for x in ODD], 'pair_compounds': res.counters.get('pair_compounds'),
     }
     return {'result': res, 'coverage': cov, 'info': info,
             'assumptions': ['attribute values are strings or lists of strings except in the odd-value layer, which only uses attribute/class/id selectors',
